@@ -174,6 +174,42 @@ package yubiattest
 //@   ensures result1 != nil ==> result0 == nil
 //@   ensures result1 == nil ==> (result0 != nil && fresh(result0))
 
+//@ # named curves (RFC 5480, 2.1.1.1): 1.2.840.10045.3.1.7 = P-256, 1.3.132.0.34 = P-384, 1.3.132.0.35 = P-521
+//@ ghost func isOID5(oid asn1.ObjectIdentifier, a int, b int, c int, d int, e int) bool =
+//@   len(oid) == 5 && oid[0] == a && oid[1] == b && oid[2] == c && oid[3] == d && oid[4] == e
+//@ ghost func isOID7(oid asn1.ObjectIdentifier, a int, b int, c int, d int, e int, f int, g int) bool =
+//@   len(oid) == 7 && oid[0] == a && oid[1] == b && oid[2] == c && oid[3] == d && oid[4] == e && oid[5] == f && oid[6] == g
+//@ func ecdhCurveFromOID(oid)
+//@   modifies nothing
+//@   ensures [p256] isOID7(oid, 1, 2, 840, 10045, 3, 1, 7) ==> (result0 == ecdhOf(256) && result1 == nil)
+//@   ensures [p384] isOID5(oid, 1, 3, 132, 0, 34) ==> (result0 == ecdhOf(384) && result1 == nil)
+//@   ensures [p521] isOID5(oid, 1, 3, 132, 0, 35) ==> (result0 == ecdhOf(521) && result1 == nil)
+//@   ensures [anything-else-is-an-error] (!isOID7(oid, 1, 2, 840, 10045, 3, 1, 7) && !isOID5(oid, 1, 3, 132, 0, 34) && !isOID5(oid, 1, 3, 132, 0, 35)) ==> (result0 == nil && result1 != nil)
+
+//@ # the subject public key. x509.PublicKeyAlgorithm: RSA=1, ECDSA=3. What crypto/x509 does is pinned here from the
+//@ # standards it implements: an RSA key is the PKCS#1 SEQUENCE { N, E } of the (right-aligned) key bits with N > 0 and
+//@ # E > 0 and nothing after it - the algorithm parameters are not consulted, so an absent NULL is accepted -; an EC key is
+//@ # the SEC 1 uncompressed point 04 || X || Y on the named curve, X and Y each felen(curve) bytes, big-endian.
+//@ ghost func ecKeyIs(k *ecdsa.PublicKey, pt []byte, b int) bool =
+//@   k.Curve == ellOf(b) && len(pt) == 1 + 2 * felen(b) && k.X != nil && k.Y != nil &&
+//@   bigv(k.X) == b2i(elems(pt), off(pt) + 1, felen(b)) && bigv(k.Y) == b2i(elems(pt), off(pt) + 1 + felen(b), felen(b))
+//@ func parsePublicKey(algo, keyData)
+//@   requires keyData != nil
+//@   let r0 = old(calls(BitString.RightAlign))
+//@   let u0 = old(calls(asn1.Unmarshal))
+//@   let n0 = old(calls(Curve.NewPublicKey))
+//@   ensures result1 != nil ==> result0 == nil
+//@   ensures [other-algorithms-have-no-key] (algo != 1 && algo != 3) ==> (result0 == nil && result1 == nil)
+//@   ensures [rsa-decode-of-the-key-bits] algo == 1 ==> (calls(asn1.Unmarshal) == u0 + 1 && arg(asn1.Unmarshal, u0, 0) == ret(BitString.RightAlign, r0, 0) &&
+//@     typeof(arg(asn1.Unmarshal, u0, 1)) == *rsaPublicKey)
+//@   ensures [rsa-accepted-iff-positive-and-complete] algo == 1 ==> (result1 == nil <==> (ret(asn1.Unmarshal, u0, 1) == nil && len(ret(asn1.Unmarshal, u0, 0)) == 0 &&
+//@     bigv(arg(asn1.Unmarshal, u0, 1).(*rsaPublicKey).N) > 0 && arg(asn1.Unmarshal, u0, 1).(*rsaPublicKey).E > 0))
+//@   ensures [rsa-key-is-the-decoded-pair] (algo == 1 && result1 == nil) ==> (typeof(result0) == *rsa.PublicKey && pl(result0) != 0 &&
+//@     result0.(*rsa.PublicKey).N == arg(asn1.Unmarshal, u0, 1).(*rsaPublicKey).N && result0.(*rsa.PublicKey).E == arg(asn1.Unmarshal, u0, 1).(*rsaPublicKey).E)
+//@   ensures [ec-point-split-at-the-field-length] (algo == 3 && result1 == nil) ==> (typeof(result0) == *ecdsa.PublicKey && pl(result0) != 0 &&
+//@     (ecKeyIs(result0.(*ecdsa.PublicKey), ret(BitString.RightAlign, r0, 0), 256) || ecKeyIs(result0.(*ecdsa.PublicKey), ret(BitString.RightAlign, r0, 0), 384) ||
+//@      ecKeyIs(result0.(*ecdsa.PublicKey), ret(BitString.RightAlign, r0, 0), 521)))
+
 //@ func ParseCertificate(asn1Data)
 //@   flag logged
 //@   let u0 = old(calls(asn1.Unmarshal))
